@@ -21,6 +21,9 @@ from . import build
 VERIF = build.VERIF
 REPO = build.REPO
 EVID = os.path.join(VERIF, "evidence")
+if os.path.realpath(REPO) != "/repo":
+    # mutant self-tests point the checks at a scratch copy: never overwrite the real evidence
+    EVID = os.path.join(VERIF, ".cache", "evidence-scratch")
 NCPU = int(os.environ.get("VERIF_JOBS", "16"))
 
 
@@ -108,6 +111,9 @@ def _run_shard(cid, shard, rundir, case_timeout, results, crashes, timeouts):
         with open(cf, "w") as f:
             json.dump(remaining, f)
         env = worker_env(shard.variant, extra=dict(shard.extra_env or {}, VERIF_SAN_LOG=base + ".san"), threads=shard.threads)
+        if shard.variant == "tsan":
+            env["TSAN_OPTIONS"] = ("halt_on_error=0:report_signal_unsafe=0:ignore_noninstrumented_modules=1:second_deadlock_stack=1:"
+                                   "history_size=4:log_path=" + base + ".san")
         budget = case_timeout * len(remaining) + 120
         t0 = time.time()
         try:
@@ -287,7 +293,17 @@ def run_check(cid, tier="quick", seed=0, replay=None, only=None):
     errors = []
     for r in sorted(results, key=lambda r: r.get("_i", 0)):
         if r.get("_proc_obs"):
-            merge_obs(obs_total, r["_proc_obs"])
+            po = dict(r["_proc_obs"])
+            for v in po.pop("viol", []) or []:
+                v = dict(v)
+                v.setdefault("property", prop)
+                e = classify(v, known)
+                if e is not None:
+                    known_hits.setdefault(e["id"], {"entry": e, "n": 0, "first": v})
+                    known_hits[e["id"]]["n"] += 1
+                else:
+                    violations.append({"viol": v, "case": {"_process_level": True, "variant": po.get("variant")}})
+            merge_obs(obs_total, po)
             continue
         n_eval += r.get("evals", 1)
         merge_obs(obs_total, r.get("obs"))
